@@ -6,15 +6,17 @@ use rayon::prelude::*;
 
 fn fill(r: usize, c: usize, base: i64) -> Vec<f64> {
     // injective, asymmetric small integers; exact in f64
-    (0..r * c).map(|k| (base + 1 + ((k as i64 * 7) % 23) + 2 * k as i64) as f64).collect()
+    // quarter-integers: still exact in f64 (products are multiples of 1/16 far below 2^53)
+    (0..r * c).map(|k| (base + 1 + ((k as i64 * 7) % 23) + 2 * (k as i64 % 97)) as f64 + if k % 3 == 1 { 0.25 } else { 0.0 }).collect()
 }
 
 fn at(a: &[f64], _r: usize, c: usize, t: bool, i: usize, j: usize) -> i64 {
     // element (i,j) of op(A)
+    // in quarter units
     if t {
-        a[j * c + i] as i64
+        (a[j * c + i] * 4.0) as i64
     } else {
-        a[i * c + j] as i64
+        (a[i * c + j] * 4.0) as i64
     }
 }
 
@@ -39,7 +41,8 @@ fn ref_mm(a: &[f64], ar: usize, ac: usize, ta: bool, b: &[f64], br: usize, bc: u
 }
 
 fn same(got: &[f64], want: &[i64]) -> bool {
-    got.len() == want.len() && got.iter().zip(want).all(|(g, w)| *g == *w as f64)
+    // `want` is in sixteenths (product of two quarter-unit values)
+    got.len() == want.len() && got.iter().zip(want).all(|(g, w)| *g * 16.0 == *w as f64)
 }
 
 fn fl(t: bool) -> char {
@@ -53,7 +56,7 @@ fn fl(t: bool) -> char {
 pub fn run(run: &Run) {
     run.rule("every (m,l,n) × 4 transpose flags × block sizes for the slice kernels; every shape pair (conformable or not) × 4 methods × 4 ownership forms for the Dot trait; entries injective small integers, oracle = i64 triple loop on explicitly transposed operands; non-trivial = non-square or transposed or non-conformable");
     let maxd = run.tier.pick(9usize, 12usize);
-    run.bound("matmul shapes m,l,n", format!("1..={}{}", maxd, if run.thorough() { " plus {15,16,17}^3" } else { "" }));
+    run.bound("matmul shapes m,l,n", format!("1..={} plus {:?}^3", maxd, if run.thorough() { vec![15, 16, 17, 31, 32, 33, 63, 64, 65] } else { vec![16, 17, 33, 64] }));
     let mut dims: Vec<(usize, usize, usize)> = Vec::new();
     for m in 1..=maxd {
         for l in 1..=maxd {
@@ -62,12 +65,11 @@ pub fn run(run: &Run) {
             }
         }
     }
-    if run.thorough() {
-        for &m in &[15usize, 16, 17] {
-            for &l in &[15usize, 16, 17] {
-                for &n in &[15usize, 16, 17] {
-                    dims.push((m, l, n));
-                }
+    let big: &[usize] = if run.thorough() { &[15, 16, 17, 31, 32, 33, 63, 64, 65] } else { &[16, 17, 33, 64] };
+    for &m in big {
+        for &l in big {
+            for &n in big {
+                dims.push((m, l, n));
             }
         }
     }
@@ -109,7 +111,7 @@ pub fn run(run: &Run) {
                 run.sample(|| format!("{} -> first row {:?}", desc(), &want[..n.min(want.len())]));
                 // blocked variant, every block size
                 let maxb = 2 * m.max(l).max(n);
-                for bs in 1..=maxb {
+                for bs in (1..=maxb).filter(|b| maxb <= 24 || *b <= 9 || *b % 7 == 0 || (*b as i64 - m as i64).abs() <= 1 || (*b as i64 - l as i64).abs() <= 1 || (*b as i64 - n as i64).abs() <= 1 || *b == maxb) {
                     run.case();
                     run.tr();
                     run.nontrivial(1);
@@ -283,7 +285,7 @@ pub fn run(run: &Run) {
             let xv = fill(n1, 1, 0);
             let yv = fill(n2, 1, 50);
             let (x, y) = (Vector::new(xv.clone()), Vector::new(yv.clone()));
-            let want: Option<i64> = if n1 == n2 { Some((0..n1).map(|i| xv[i] as i64 * yv[i] as i64).sum()) } else { None };
+            let want: Option<i64> = if n1 == n2 { Some((0..n1).map(|i| (xv[i] * 4.0) as i64 * (yv[i] * 4.0) as i64).sum()) } else { None };
             let names = ["dot", "t_dot", "dot_t", "t_dot_t"];
             for mi in 0..4 {
                 for form in 0..4 {
@@ -313,7 +315,7 @@ pub fn run(run: &Run) {
                     run.ok();
                     match (res, want) {
                         (Ok(g), Some(w)) => {
-                            if g != w as f64 {
+                            if g * 16.0 != w as f64 {
                                 run.violate(&format!("{}/wrong-values", site), || format!("len {} . len {} form {}: got {}, want {}", n1, n2, form, g, w));
                             }
                             run.outcome(&(&site, "value"));
